@@ -162,6 +162,49 @@ func (ts *TermStore) Mk(op string, s Sort, args ...*Term) *Term {
 			return ts.Const(s, r)
 		}
 	}
+	// narrow comparisons / extractions of zero-extended terms (bytes widened to
+	// runes and back), so that equal tests on a byte produce equal terms
+	if len(args) >= 1 && strings.HasPrefix(op, "(_ extract ") && strings.HasPrefix(args[0].op, "(_ zero_extend ") {
+		inner := args[0].args[0]
+		var hi, lo int
+		fmt.Sscanf(op, "(_ extract %d %d)", &hi, &lo)
+		if lo == 0 && hi+1 == inner.sort.Width() {
+			return inner
+		}
+	}
+	if len(args) == 2 {
+		switch op {
+		case "=", "bvult", "bvule", "bvugt", "bvuge", "bvslt", "bvsle", "bvsgt", "bvsge":
+			x, c := args[0], args[1]
+			flipped := false
+			if x.IsConst() && !c.IsConst() {
+				x, c = c, x
+				flipped = true
+			}
+			if c.IsConst() && strings.HasPrefix(x.op, "(_ zero_extend ") && x.sort.IsBV() {
+				inner := x.args[0]
+				w := inner.sort.Width()
+				if w < 64 && c.cbits < (uint64(1)<<uint(w)) {
+					nop := op
+					switch op {
+					case "bvslt":
+						nop = "bvult"
+					case "bvsle":
+						nop = "bvule"
+					case "bvsgt":
+						nop = "bvugt"
+					case "bvsge":
+						nop = "bvuge"
+					}
+					nc := ts.Const(inner.sort, c.cbits)
+					if flipped {
+						return ts.Mk(nop, s, nc, inner)
+					}
+					return ts.Mk(nop, s, inner, nc)
+				}
+			}
+		}
+	}
 	// local simplifications
 	switch op {
 	case "not":
